@@ -15,6 +15,16 @@ def run(tier, only=None):
     rep = report.Report("C04", tier, "model_checking")
     eng = enc.EncEngine("C04", tier)
     sks = families.c04_families(tier == "quick")
+    # vector / VEX forms with a memory source or destination: the R/X/B (REX and inverted VEX) extension bits must
+    # select the written base and index whatever rewriting the addressing options apply (the full shape space is C02's;
+    # here the shapes that exercise X, B and the index->base rewriting)
+    import copy
+    shapes = ("b_s1_hex", "bpixs_s8_hex", "sxi_s1_hex", "sxi_s2_hex", "bpd_s1_hex") if tier == "quick" else None
+    for m in families.c02_families(True):
+        if m.family.split(".")[0] in ("avx", "bmi", "sse", "mmx", "adx") and (shapes is None or m.name.endswith(shapes)):
+            m = copy.deepcopy(m)
+            m.name = "c04.mem." + m.name[4:]
+            sks.append(m)
     if only:
         sks = [s for s in sks if fnmatch.fnmatch(s.name, only)]
     rep.add(eng.run_family(sks))
